@@ -53,3 +53,10 @@ claim("C04", "Coq theorem: each selection shuffle maps the answer space bijectiv
 claim("C10", "Coq model of westfall_young on the table of statistics + textbook step-down spec, both compared with the implementation; property clauses and rotation FWER count asserted on the implementation",
       "westfall_young (after the randomizations) is modelled line by line (stable sorts, successive minima/maxima, monotonicity pass); model and the textbook step-down spec are evaluated in Coq against the implementation driven by a scripted Randomizer on all tables with <=2 simulated rows x <=2 hypotheses over {-1,0,1} and random tables; adj>=raw, range, ordering, relabelling and the rotation FWER count are asserted on the implementation.",
       COMMON_NOTE + "Python's sorted() stability is modelled by an insertion sort.", "DESIGN.md 4/C10")
+
+claim("C17", "Coq state-machine model of Experiment histories (step / run over operation lists, forks for deep copies) + invariant theorems + correspondence on random histories",
+      "Experiment state (group, response, strata, generator tape) and the three operations are modelled as step : exp -> op -> result (exp * output); random histories of 1..6 operations are executed on the implementation with a scripted generator (deep copies = forks) and compared step by step (assignment after every call, returned values); invariants (labels conserved, within strata, in_place semantics) are asserted on the implementation and proved of the model (Properties/C17.v).",
+      CORE_NOTE + " ttest is checked against scipy's pooled-variance t only on the implementation.", "DESIGN.md 4/C17")
+claim("C19", "Coq model of permute_incidence_fixed_sums (validation, rejection loop fuelled by the tape, 4-cell swap) + theorems + correspondence on all small binary matrices; reachability by BFS on the implementation",
+      "The model follows the code (row pair = first two picks of sample_by_index, candidate columns, two choices, swap on a private copy); compared with the implementation on every binary 2x2/2x3/3x2 (thorough 3x3, 2x4) matrix admitting a swap, k<=3, several dtypes and layouts; margins, binary shape, exact-k reachability (BFS), Hamming bound, input immutability, reproducibility asserted on the implementation.",
+      CORE_NOTE, "DESIGN.md 4/C19")
